@@ -105,8 +105,8 @@ def loop_cfg(has_thr, has_max):
 
 
 GROUPS = [guard(estep), guard(mstep), guard(lemmas), guard(loop_cfg(True, True)), guard(loop_cfg(True, False)), guard(loop_cfg(False, True))]
-SHARED = []
-REPLAY = [("C06.loop", "kmeans_repro.py", "fit_loop", {}), ("C06", "kmeans_repro.py", "criterion", {})]
+SHARED = [("C20", "dist", ["C20.dist.ndarray", "C20.dist.dask"]), ("C20", "predict", ["C20.predict"])]   # leaf contracts used at e_step's call sites
+REPLAY = [("C06.loop", "kmeans_repro.py", "fit_loop", {}), ("C06", "kmeans_repro.py", "criterion", {}), ("C20", "kmeans_repro.py", "dist", {})]
 TRUSTED = ["np.argmin / np.min contracts; np.bincount contract; scipy cdist contract", "dask_ml k_init returns the initial centroids (opaque)",
            "Dask contract (DESIGN §3)"]
 ASSUMPTIONS = ["every cluster keeps at least one sample (as in the property statement)", "previous criterion non-zero in the convergence test"]
